@@ -733,7 +733,10 @@ func ruleSig2(c *Ctx, r *Reporter) {
 		var kill ssa.Instruction
 		allInstrs(fn, func(in ssa.Instruction) {
 			if call, ok := in.(*ssa.Call); ok {
-				if f := calleeObj(&call.Call); f != nil && f.Pkg() != nil && f.Pkg().Path() == "gopkg.in/tomb.v2" && f.Name() == "Kill" {
+				if isTombCall(call, "Kill") {
+					kill = in
+				} else if h := staticFn(&call.Call); h != nil && h != fn && tombDeadAfter(h) {
+					// a function of the repo that returns only with the tomb dead (killed here or found dead)
 					kill = in
 				}
 			}
@@ -798,11 +801,14 @@ func ruleSig2(c *Ctx, r *Reporter) {
 
 	// closed=true in Stream methods is paired with cancel()
 	nClosed := 0
+	var streamFns []*ssa.Function
 	for i := 0; i < streamT.NumMethods(); i++ {
-		fn := c.ssaFunc(streamT.Method(i))
-		if fn == nil || fn.Blocks == nil {
-			continue
+		if m := c.ssaFunc(streamT.Method(i)); m != nil && m.Blocks != nil {
+			// with the function literals written inside the method (a local `terminate := func() {...}`)
+			streamFns = append(streamFns, withClosures(m)...)
 		}
+	}
+	for _, fn := range streamFns {
 		var cancels []ssa.Instruction
 		allInstrs(fn, func(in ssa.Instruction) {
 			if call, ok := in.(*ssa.Call); ok && !call.Call.IsInvoke() && isLoadOf(call.Call.Value, cancelF) {
@@ -907,4 +913,65 @@ func aliveCheckedAtAllCallers(c *Ctx, fn *ssa.Function, depth int) bool {
 		})
 	}
 	return sites > 0 && sites == good
+}
+
+func isTombCall(call *ssa.Call, name string) bool {
+	f := calleeObj(&call.Call)
+	return f != nil && f.Pkg() != nil && f.Pkg().Path() == "gopkg.in/tomb.v2" && f.Name() == name
+}
+
+// tombDeadAfter: h is a repo function that contains a tomb.Kill and whose every path from entry to a return passes
+// it, or leaves through the not-alive edge of a tomb.Alive() test (the tomb was killed before).
+func tombDeadAfter(h *ssa.Function) bool {
+	if h == nil || h.Blocks == nil || fnPkgPath(h) != pkgLungo {
+		return false
+	}
+	hasKill := false
+	deadEntry := map[ssa.Instruction]bool{}
+	allInstrs(h, func(in ssa.Instruction) {
+		call, ok := in.(*ssa.Call)
+		if !ok {
+			return
+		}
+		if isTombCall(call, "Kill") {
+			hasKill = true
+		}
+		if !isTombCall(call, "Alive") || call.Referrers() == nil {
+			return
+		}
+		for _, ref := range *call.Referrers() {
+			var iff *ssa.If
+			dead := 1
+			switch x := ref.(type) {
+			case *ssa.If:
+				iff = x
+			case *ssa.UnOp:
+				if x.Op == token.NOT && x.Referrers() != nil {
+					for _, rr := range *x.Referrers() {
+						if i2, ok := rr.(*ssa.If); ok {
+							iff, dead = i2, 0
+						}
+					}
+				}
+			}
+			if iff == nil {
+				continue
+			}
+			succ := iff.Block().Succs[dead]
+			if len(succ.Preds) == 1 && len(succ.Instrs) > 0 {
+				deadEntry[succ.Instrs[0]] = true
+			}
+		}
+	})
+	if !hasKill {
+		return false
+	}
+	pass := func(in ssa.Instruction) bool {
+		if deadEntry[in] {
+			return true
+		}
+		call, ok := in.(*ssa.Call)
+		return ok && isTombCall(call, "Kill")
+	}
+	return exitWithoutPassing(h.Blocks[0].Instrs[0], pass, nil) == nil
 }
